@@ -51,6 +51,10 @@ func Escape(str string, isBytes bool) (string, error) {
 				} else {
 					buf = append(buf, `\\`...)
 				}
+			case '\r':
+				// A raw carriage return in a string literal is read back as a line feed
+				// (newline normalisation in Unescape), so it has to be escaped.
+				buf = append(buf, `\x0d`...)
 			default:
 				buf = append(buf, byte(c))
 			}
